@@ -25,7 +25,8 @@ RULE = (
     "Trivial: nothing judged (abort by filter/estimator, which C14 judges)."
 )
 ASSUMPTIONS = [
-    "affine ensemble with dyadic slopes; deterministic design sampler; tolerance 1e-9 (functions) / 1e-7 (gradients)",
+    "affine objective 0 and quadratic objective 1 / constraint with dyadic coefficients; deterministic design sampler; "
+    "tolerance 1e-9 (functions) / 1e-7 (gradients); gradient reference = least squares over the surviving perturbations",
     "gradient values only judged under the C02 conditioning precondition on the surviving rows; flags and None-ness always",
 ]
 BOUNDS = {
@@ -43,7 +44,8 @@ def shape_v(P: int) -> int:
 def build_config(R: int, P: int, rms: int, pms: int, flt: str, emap: tuple[int, ...], weights: list[float] | None = None,
                  window: tuple[int, int] | None = None) -> dict[str, Any]:
     V = shape_v(P)
-    design = c02.design("table", R, P, V)
+    # no zero rows, any two rows independent and well conditioned
+    design = [[0.5], [-0.25], [0.75]][:P] if V == 1 else [[0.5, 0.0], [0.0, -0.5], [0.5, 0.75]][:P]
     config: dict[str, Any] = {
         "variables": {"initial_values": [0.25, -0.5][:V]},
         "realizations": {"weights": weights if weights is not None else [float(i + 1) for i in range(R)], "realization_min_success": rms},
@@ -84,7 +86,10 @@ def judge(case: dict[str, Any]) -> Judgement:
     subset, nan_col, split = case["subset"], case["nan_col"], case["split"]
     V = shape_v(P)
     config = validate(build_config(R, P, rms, pms, flt, emap))
-    ens_fn = c02.ensemble(R, V, "distinct", case["seed"])
+    base_fn = c02.ensemble(R, V, "distinct", case["seed"])
+    # objective 0 stays affine (the filters rank on it); objective 1 and the constraint get a quadratic term so that a
+    # failed perturbation that is NOT removed from the least-squares system changes the estimate
+    ens_fn = AffineEnsemble(base_fn.slopes, base_fn.offsets, quad=[0.0, 0.5, -0.25])
 
     def cell_fails(r: int, p: int) -> bool:
         bit = r if p < 0 else R + r * P + p
@@ -180,7 +185,7 @@ def judge(case: dict[str, Any]) -> Judgement:
             window = (0, max(0, R - 2))
             if sum(red_weights) > 0 and (flt != "sort" or window[1] < keep.size):
                 red_config = validate(build_config(keep.size, P, min(rms, keep.size), pms, flt, emap, red_weights, window))
-                red_fn = AffineEnsemble(ens_fn.slopes[keep], ens_fn.offsets[keep])
+                red_fn = AffineEnsemble(ens_fn.slopes[keep], ens_fn.offsets[keep], quad=ens_fn.quad)
                 red_ens = EnsembleEvaluator(red_config, None, TableEvaluator(red_fn, 2, 1), manager)
                 j.transitions += 1
                 try:
@@ -206,7 +211,12 @@ def judge(case: dict[str, Any]) -> Judgement:
                 continue
             if not all(c02.well_conditioned(delta[r][pert_ok[r]]) for r in active):
                 continue
-            slopes = ens_fn.slopes[:, f, :]
+            # per-realization reference gradient: least squares over the SURVIVING perturbations only
+            slopes = np.zeros((R, V))
+            for r in active:
+                rows = delta[r][pert_ok[r]]
+                diffs = np.array([ens_fn(x + d, r)[f] - ens_fn(x, r)[f] for d in rows])
+                slopes[r] = np.linalg.lstsq(rows, diffs, rcond=None)[0]
             if emap[f] == 0:
                 expected = sum(w[r] * slopes[r] for r in active)
             else:
